@@ -101,8 +101,9 @@ def compare(case, io, mo):
 def oracle(case, io):
     """intrinsic, on the implementation alone: no query variable stays bound after the enumeration (semcheck), and - round 4 - `\\+ G`
     never binds a variable: a predicate whose body is a single negation answers with the unchanged query (progs_r4.check_neg_binds_nothing);
-    an if-then-else never delivers answers of its then side and of its else branch (progs_r4.check_outer_commit, three-level family)"""
-    return semcheck.oracle(case, io) or progs_r4.check_neg_binds_nothing(case, io) or progs_r4.check_outer_commit(case, io)
+    an if-then-else never delivers answers of its then side and of its else branch (progs_r4.check_outer_commit, three-level family);
+    the answers of a clause do not depend on the deterministic padding of its body (progs_r4.check_same_answers, bodies at the nesting limit)"""
+    return semcheck.oracle(case, io) or progs_r4.check_neg_binds_nothing(case, io) or progs_r4.check_outer_commit(case, io) or progs_r4.check_same_answers(case, io)
 
 def nontrivial(case, io):
     if not isinstance(io, dict) or 'queries' not in io or not any(q['count'] >= 1 for q in io['queries']):
